@@ -272,7 +272,7 @@ pub fn gen(out: &mut Out, thorough: bool, seed: u64) {
     for _ in 0..ser_rounds {
         for code in CODES {
             let mut items: Vec<String> = Vec::new();
-            let nh = rng.below(8);
+            let nh = if rng.chance(1, 4) { rng.range(21, 45) } else { rng.below(8) };
             for _ in 0..nh {
                 if rng.chance(1, 3) {
                     // cookie with the next attribute combination (2^4 optional x 2 x 2 x 4 same-site = 256 combos)
